@@ -98,3 +98,10 @@ def block_mix(x, y):
 @onnx_function
 def near_equal_literals(x):
     return (x + 1.0) * 1.000000001 - 3.14159265 + 3.141592653589793
+
+
+@onnx_function
+def scale_by_count(y, *, n):
+    # `n` is a (possibly symbolic) dimension handed in by value: no input of this function carries it
+    import jax.numpy as jnp
+    return y * jnp.arange(3, dtype=y.dtype) * n
